@@ -6,3 +6,6 @@ void put(string n, object ob) { by_name[n] = ob; by_ob[file_name(ob)] = n; }
 object get(string n) { return by_name[n]; }
 mixed name_of(object ob) { return by_ob[file_name(ob)]; }
 mapping all() { return by_name; }
+mapping handles = ([]);
+void set_handle(string id, int h) { handles[id] = h; }
+int get_handle(string id) { return handles[id]; }
